@@ -39,9 +39,31 @@ def skeleton(e, depth=0):
     return type(e).__name__
 
 
-def shape_of(arch, instr, text):
+def topkind(e):
+    if e.is_int():
+        return "i"
+    if e.is_id():
+        return "r%d" % e.size
+    if e.is_mem():
+        return "m%d" % e.size
+    if e.is_op():
+        return e.op
+    return type(e).__name__
+
+
+def shape_keys(arch, instr, text, tier):
+    """Keys under which an instance is counted; it is judged while any of its keys is below the cap.
+    thorough: (mnemonic, first printed token, full operand skeleton).
+    quick: (mnemonic, first token, top-level operand kinds) and, separately, the mnemonic-independent skeleton of
+    its memory / operator operands (addressing forms)."""
     first = text.split(None, 1)[0] if text.split() else ""
-    return (instr.name, first, tuple(skeleton(a) for a in instr.args))
+    if tier == "thorough":
+        return [(instr.name, first, tuple(skeleton(a) for a in instr.args))]
+    keys = [("n", instr.name, first, tuple(topkind(a) for a in instr.args))]
+    addr = tuple(skeleton(a) for a in instr.args if a.is_mem() or a.is_op())
+    if addr:
+        keys.append(("a", first if first != instr.name else "", addr))
+    return keys
 
 
 def judge_text(arch, instr, loc_db, c15_fails=None):
@@ -121,11 +143,12 @@ class C16(c15.RoundTripCheck):
     stride_q = {"x86_16": 4, "armb": 16, "armtb": 16, "aarch64b": 16, "mips32l": 16, "mepl": 16}
     nrand_q = 48
     nrand_t = 4000
-    block = 32
+    block = 0      # contiguous opcode ranges per shard: instruction shapes rarely repeat across shards
     rule = ("same byte strata as C15 (curated + opcode enumeration, seed-independent; small Hypothesis stratum). "
             "Parsing costs 10-70 ms, so per shard at most CAP instances (quick 1, thorough 4; random stratum "
-            "uncapped) of each instruction shape = (mnemonic, first printed token, operand skeleton with register "
-            "and immediate widths) are judged: text=str(instr); fromstring(text, loc_db, mode) must succeed, print "
+            "uncapped) of each instruction shape are judged (thorough: shape = mnemonic, first printed token, full "
+            "operand skeleton with register and immediate widths; quick: mnemonic + first token + top-level operand "
+            "kinds, and independently each addressing-form skeleton): text=str(instr); fromstring(text, loc_db, mode) must succeed, print "
             "identically, and each encoding of the parsed instruction must decode to the original "
             "name/mode/operands with l == len. Encodings that already fail for the decoded instruction (C15) are "
             "skipped. Non-trivial: instruction with >=1 operand whose text parsed; distinct by (architecture, "
@@ -161,12 +184,12 @@ class C16(c15.RoundTripCheck):
         except Exception:
             text = ""
         if stratum != "random":
-            shp = shape_of(arch, instr, text)
-            n = self._shapes.get(shp, 0)
-            if n >= self._cap:
+            keys = shape_keys(arch, instr, text, state["tier"])
+            if all(self._shapes.get(k, 0) >= self._cap for k in keys):
                 res.dropped["instance beyond the per-shape cap"] += 1
                 return
-            self._shapes[shp] = n + 1
+            for k in keys:
+                self._shapes[k] = self._shapes.get(k, 0) + 1
         text, fails = judge_text(arch, instr, self._loc_db)
         if fails:
             set_packrat(False)
